@@ -19,10 +19,13 @@ type verifStaticHosts struct {
 
 func (h *verifStaticHosts) Init(servers []string) error { h.servers = servers; return nil }
 func (h *verifStaticHosts) Len() int                    { return len(h.servers) }
+// Next never asks the client for its one-second pause between rounds: under a virtual clock a
+// request queued during that pause while a mysync mutex is held would freeze the clock. The
+// harness's dialer paces failed dials instead.
 func (h *verifStaticHosts) Next() (string, bool) {
 	s := h.servers[h.i%len(h.servers)]
 	h.i++
-	return s, h.i > 1 && (h.i-1)%len(h.servers) == 0
+	return s, false
 }
 func (h *verifStaticHosts) Connected() { h.i = 0 }
 
